@@ -349,6 +349,7 @@ namespace
         std::string err;
         bool in_start{false};
         std::set<long> input_ticks;
+        std::set<long> tolerated;                 // times requested and cancelled within one hook invocation
         char variant{'a'};
         unsigned mask{0};
         std::string frontier_key;  // canonical state at the first evaluation beyond the supplied scripts
@@ -368,7 +369,10 @@ namespace
                 r.err = "evaluated at " + std::to_string(now) + " but pending time " + std::to_string(*pend.begin()) + " was never honoured";
             const bool due = pend.count(now) != 0;
             const bool input = r.input_ticks.count(now) != 0;
-            const bool dont_care = r.m.ever.count(now) != 0;  // requested once, cancelled later: statement is silent
+            // A time requested and cancelled again inside ONE hook invocation: schedule() arms the graph slot at once and a cancellation
+            // cannot disarm it, so the node is still woken then (the statement is silent on it). A time requested in an EARLIER hook and
+            // cancelled or postponed later is NOT tolerated: after user code the engine re-arms the slot from what is still pending.
+            const bool dont_care = r.tolerated.count(now) != 0;
             if (!due && !input && !dont_care && r.err.empty())
                 r.err = "evaluated at " + std::to_string(now) + " which was never requested (pending=" + r.m.canon(0) + ")";
             std::string q = compare_queries(sched, r.m, now);
@@ -391,11 +395,17 @@ namespace
         static const std::vector<Op> none;
         if (starting) script = r.start_script.empty() ? &none : &r.start_script[0];
         else { script = r.next_eval < r.eval_scripts.size() ? &r.eval_scripts[r.next_eval] : &none; ++r.next_eval; }
+        std::set<long> asked_in_this_hook;
         for (auto &op : *script)
         {
+            if (op.kind == 'S' || op.kind == 'A') asked_in_this_hook.insert(now + op.d);
             std::string e = apply_op(op, sched, r.m, now, !starting);
             e += compare_queries(sched, r.m, now);
             if (!e.empty() && r.err.empty()) r.err = "t=" + std::to_string(now) + (starting ? " (start)" : "") + " after " + op.str() + ": " + e;
+        }
+        {
+            const std::set<long> still = r.m.pending_times();
+            for (long t : asked_in_this_hook) if (r.m.ever.count(t) && !still.count(t)) r.tolerated.insert(t);
         }
         if (!starting)
         {
